@@ -30,7 +30,7 @@ RULE = ("one run = (platform {Ledger, SGX}, command {onboard, unlock, changepin,
         "0..2 invalid attempts, --anypin, answers yes / no / other-then-yes / other-then-no, --nounlock, "
         "--noexec}); enumerated: the full product of the enum dimensions; seeded: PIN strings and "
         "entropy; non-trivial = at least one APDU reached the device; distinct = the scenario tuple")
-TIERS = {"quick": {"runs": 3000, "wall": 150}, "thorough": {"runs": 200000, "wall": 1800}}
+TIERS = {"quick": {"runs": 20000, "wall": 240}, "thorough": {"runs": 400000, "wall": 3000}}
 EXHAUSTIVE = {"quick": True, "thorough": True}
 COMPONENTS = {
     "real": ["adm_ledger.main / adm_sgx.main (argument parsing, dispatch, exit status)",
